@@ -14,6 +14,7 @@ ENTRY = {
             T("TestC02GateSweep", (36, 4), (220, 16)),
             T("TestC02ReadStability", (30, 4), (200, 16)),
             T("TestC02BulkRangeDelete", (10, 4), (120, 16)),
+            T("TestC02Resolve", (40, 4), (600, 16)),
         ],
         "required_classes": [
             "directed/mode=default", "directed/mode=read-only", "directed/type=labelmap", "directed/type=keyvalue", "directed/type=neuronjson",
@@ -25,6 +26,7 @@ ENTRY = {
             "sweep/nt/annotation/elements", "sweep/nt/node/note", "sweep/nt/node/log", "sweep/nt/child-created/branch", "sweep/nt/newinst/instance",
             "stability/post/write-in-descendant-of-V", "stability/post/write-outside-lineage-of-V", "stability/post/label-mapping-op-in-descendant-of-V",
             "stability/applied/dag-merge", "stability/applied/delete-other-instance", "stability/applied/new-instance",
+            "resolve/has-conflict", "resolve/conflict-free-instance-before-conflicted-one", "resolve/two-conflicted-instances",
             "bulk/committed-pairs>1000", "bulk/committed-pairs=990..1000",
             "stability/applied/lmmerge", "stability/applied/lmcleave", "stability/applied/lmsplitsv", "stability/applied/annput", "stability/applied/njput",
         ],
